@@ -92,6 +92,14 @@ func c17String(r *vx.Run, s string) {
 	if key != key2 {
 		r.Violation("C17:string:ForLookup-nondeterministic", c17Quoted(s), cs)
 	}
+	switch {
+	case kerr != nil:
+		r.Outcome("string: no lookup key (refused)")
+	case Valid(s):
+		r.Outcome("string: valid address with a lookup key")
+	default:
+		r.Outcome("string: lookup key for a string that is not a valid address")
+	}
 	if kerr == nil && s != "" {
 		r.Nontrivial("s:" + key)
 	}
@@ -127,6 +135,11 @@ func c17String(r *vx.Run, s string) {
 func c17Pair(r *vx.Run, a, b string, ka, kb string, da, db string) {
 	r.Eval()
 	e1, e2 := Equal(a, b), Equal(b, a)
+	if e1 {
+		r.Outcome("pair: equal")
+	} else {
+		r.Outcome("pair: different")
+	}
 	if e1 != e2 {
 		r.Violation("C17:pair:Equal-not-symmetric", c17Quoted(a)+" / "+c17Quoted(b), c17Case{"pair", []string{a, b}})
 	}
@@ -303,6 +316,7 @@ func c17Orbit(r *vx.Run, local string, labels []string) {
 				v += "@" + d.dom
 			}
 			r.Eval()
+			r.Outcome("orbit: spelling variant compared with the base key")
 			r.Nontrivial("o:" + v)
 			vname := "local-" + ln + "/domain-" + d.name
 			// cause by intervention: if restoring the base spelling of the components
@@ -420,6 +434,7 @@ func c17Orbit(r *vx.Run, local string, labels []string) {
 // quoting: UnquoteMbox(QuoteMbox(m)) == m for every non-empty raw local part
 func c17Quote(r *vx.Run, m string) {
 	r.Eval()
+	r.Outcome("quote: round trip evaluated")
 	q := QuoteMbox(m)
 	u, err := UnquoteMbox(q)
 	if err != nil || u != m {
